@@ -103,9 +103,11 @@ def run_group(harnesses, timeout_s, jobs, extra_args=None, playback=False, log_p
     ]
     mem_kb = MEM_KB
     if playback:
-        # traces for every reachability check make the JSON the driver parses enormous: drop them
-        # here and give the (single) process tree more address space
-        cmd += ["-Z", "concrete-playback", "--concrete-playback=print", "--no-assertion-reach-checks"]
+        # the traces make the JSON the Kani driver parses enormous: give the (single) process tree
+        # more address space. (--no-assertion-reach-checks would shrink it, but with that flag Kani
+        # 0.68 reported "0 failed / VERIFICATION FAILED" without a playback for a harness whose
+        # assertion fails on every path.)
+        cmd += ["-Z", "concrete-playback", "--concrete-playback=print"]
         mem_kb = max(MEM_KB, 44 * 1024 * 1024)
     for h in harnesses:
         cmd += ["--harness", h]
